@@ -16,11 +16,11 @@ func init() {
 	core.Register(&core.Prop{
 		ID:    "C13",
 		Level: "exploration",
-		Rule: "PRNG base templates (objects, plain tags incl. application-defined tags without arguments, block/clause/end tags, loops, capture, comment/raw, whitespace-rich literal text of spaces, tabs, LF, CRLF and non-whitespace) are tokenised by the frozen reference tokenizer; up to 10 hyphen slots (left/right side of a tag or object outside raw/comment bodies) are chosen and ALL 2^k subsets rendered. Weak law (every subset): output with every whitespace character deleted equals that of the hyphen-free template. Strong law (subsets in which every hyphen faces literal text or the template boundary): output equals the output of the hyphen-free template with the adjacent whitespace run deleted from the neighbouring text token. Non-trivial = a non-empty subset whose output differs from the hyphen-free output; distinct = distinct (template, subset).",
+		Rule: "PRNG base templates (objects, plain tags incl. application-defined tags without arguments, block/clause/end tags, loops, capture, comment/raw, whitespace-rich literal text of spaces, tabs, LF, CRLF and non-whitespace) are tokenised by the frozen reference tokenizer; up to 10 hyphen slots (left/right side of a tag or object outside raw/comment bodies) are chosen and ALL 2^k subsets rendered. Weak law (every subset): output with every whitespace character deleted equals that of the hyphen-free template. Strong law (every subset; a hyphen facing another tag or object contributes nothing): output equals the output of the hyphen-free template with the adjacent whitespace run deleted from the neighbouring text token. Non-trivial = a non-empty subset whose output differs from the hyphen-free output; distinct = distinct (template, subset).",
 		Exhaustive: func(string) bool { return true },
 		Assumptions: []string{
 			"templates only print captured/assigned text (trimmed whitespace inside a capture never reaches a filter or comparison), otherwise the weak law would not follow from the statement",
-			"the strong law is not asserted for a hyphen that faces a tag, an object or a raw/comment body",
+			"a hyphen that faces another tag or an object strips nothing (no literal text is adjacent to it); for a hyphen facing a raw body both readings (edge whitespace kept / stripped) are accepted",
 		},
 		MinEvents: map[string]int64{"strong_law_checked": 1000, "weak_law_checked": 10000},
 		Run:       runC13,
@@ -62,6 +62,11 @@ func runC13(c *core.Ctx) {
 		prog = append(prog, gen.Text{S: " "}, gen.Out{E: gen.Var{Name: "c1"}}, gen.Text{S: "\n"}, gen.Out{E: gen.Var{Name: "c2"}}, gen.Text{S: "\tend \n"})
 		if r.Bool() {
 			prog = append([]gen.Node{gen.Text{S: " \n start\t"}}, prog...)
+		}
+		if r.P(1, 6) {
+			// very long literal text (several KiB) next to tags, with and without white space at its ends
+			long := strings.Repeat("long-text/", 450)
+			prog = append(prog, gen.Text{S: " \n" + long}, gen.Out{E: gen.Var{Name: "n"}}, gen.Text{S: long + "\t "}, gen.Out{E: gen.Var{Name: "s"}}, gen.Text{S: "  " + long + long + " "})
 		}
 		if r.P(1, 3) {
 			prog = append(prog, gen.Text{S: " x "}, gen.PlainTag{Name: "xecho"}, gen.Text{S: " \n"}, gen.PlainTag{Name: "xinfo"}, gen.Text{S: " y"})
@@ -117,6 +122,10 @@ func runC13(c *core.Ctx) {
 					}
 				case toks[adj].Kind == ref.Text:
 					s.facesText = adj
+				case toks[adj].Kind == ref.Tag && (toks[adj].Name == "comment" || toks[adj].Name == "endcomment"):
+					// a whole comment block stands next to the hyphen: it renders nothing, and whether the marker then
+					// reaches the text on the other side of it is not stated
+					s.facesText = -4
 				default:
 					s.facesText = -2
 				}
@@ -252,7 +261,9 @@ func runC13(c *core.Ctx) {
 				if mask&(1<<j) == 0 {
 					continue
 				}
-				if s.facesText == -2 {
+				// a hyphen that faces another tag or object has no literal text next to it: it strips nothing (facesText == -2
+				// contributes no deletion to the transformed template)
+				if s.facesText == -4 {
 					strong = false
 				}
 				if s.opaque == 2 && s.bodyTok >= 0 {
